@@ -115,8 +115,12 @@ func runC05(c *Ctx) {
 	// --- R8 bufferTranslate loop -------------------------------------------------
 	c.checkBufferTranslate()
 
+	// --- no hidden state: translation results cannot depend on earlier translations ---
+	c.checkNoLibraryGlobalWrites("library-global-state")
+
 	// --- R9 TranslateByReference: all-gap reference codon ------------------------
 	c.checkRefCodonAllGap()
+	c.checkRefCodonAdvance()
 
 	L.Note("packages analysed: %d (all of /repo), tables evaluated from align/const.go", len(c.P.Pkgs))
 }
@@ -736,4 +740,89 @@ func keysInt(m map[int64]bool) []int64 {
 	}
 	sort.Slice(out, func(i, j int) bool { return out[i] < out[j] })
 	return out
+}
+
+// checkRefCodonAdvance: each gap-skipping loop of TranslateByReference that tests
+// ref[idx[k]] == GAP advances idx[j] by one for exactly j = k..2.
+func (c *Ctx) checkRefCodonAdvance() {
+	L := c.L
+	L.Rule("refcodon-advance", "in TranslateByReference each loop that skips reference gaps at codon position k (condition ref[idx[k]] == GAP) increments idx[j] by one for every j in k..2 and for no other j: the later positions of the window move together with the one being searched")
+	r := c.fn("align", "*align", "TranslateByReference")
+	if !r.ok() {
+		return
+	}
+	fn := r.F
+	gap := int64('-')
+	n := 0
+	for _, lp := range naturalLoops(fn) {
+		// loop condition chain contains ref[idx[k]] == GAP as a continuation condition
+		k := int64(-1)
+		for b := range lp.Blocks {
+			ifi, ok := b.Instrs[len(b.Instrs)-1].(*ssa.If)
+			if !ok || !lp.Blocks[b.Succs[0]] || lp.Blocks[b.Succs[1]] {
+				continue // continuation tests only: true stays in the loop, false leaves
+			}
+			bo, ok := ifi.Cond.(*ssa.BinOp)
+			if !ok || bo.Op != token.EQL {
+				continue
+			}
+			if g, ok := constInt(bo.Y); !ok || g != gap {
+				continue
+			}
+			if u, ok := bo.X.(*ssa.UnOp); ok {
+				if ia, ok := u.X.(*ssa.IndexAddr); ok {
+					if iu, ok := ia.Index.(*ssa.UnOp); ok {
+						if iia, ok := iu.X.(*ssa.IndexAddr); ok {
+							if kk, ok := constInt(iia.Index); ok {
+								k = kk
+							}
+						}
+					}
+				}
+			}
+		}
+		if k < 0 {
+			continue
+		}
+		// the loop must be a pure skipping loop: small, no calls
+		if len(lp.Blocks) > 4 {
+			continue
+		}
+		n++
+		inc := map[int64]int{}
+		for b := range lp.Blocks {
+			for _, in := range b.Instrs {
+				st, ok := in.(*ssa.Store)
+				if !ok {
+					continue
+				}
+				ia, ok := st.Addr.(*ssa.IndexAddr)
+				if !ok {
+					continue
+				}
+				j, ok := constInt(ia.Index)
+				if !ok {
+					continue
+				}
+				if bo, ok := st.Val.(*ssa.BinOp); ok && bo.Op == token.ADD {
+					if one, ok := constInt(bo.Y); ok && one == 1 {
+						inc[j]++
+					}
+				}
+			}
+		}
+		okAll := true
+		for j := int64(0); j <= 2; j++ {
+			want := 0
+			if j >= k {
+				want = 1
+			}
+			if inc[j] != want {
+				okAll = false
+			}
+		}
+		L.Check(okAll, "refcodon-advance", r.label, fmt.Sprintf("skipping loop at codon position %d", k), c.P.Pos(lp.Head.Instrs[0].Pos()),
+			fmt.Sprintf("increments positions %d..2 once each", k), fmt.Sprintf("the loop that skips gaps at codon position %d increments %v (want positions %d..2 once each): the codon window no longer covers three reference nucleotides", k, inc, k))
+	}
+	L.Floor("refcodon-advance", 3, "three skipping loops")
 }
